@@ -478,6 +478,11 @@ def predict (st : St) (hist : String → List Ca) (h : String) (s : Sys) (detail
       if (get fresh p.1).isSome then none else some (p.1, 999999999))
     let vs := ca.classes.map fun p => p.2.keys.variant.name
     return one (.keyrollInit fresh) ("rollinit/" ++ "+".intercalate (vs.eraseDups))
+  | "repo_update" =>
+    let fresh := evs.filterMap fun e => match e with
+      | .key r (.pendingAdded k) => some (r, k)
+      | _ => none
+    return one (.repoUpdate fresh) (if ca.hasRepo then "repoupdate/migrate" else "repoupdate/first")
   | "key_roll_activate" =>
     let vs := ca.classes.map fun p => p.2.keys.variant.name
     let stale := if ca.noStale then "" else "/stale"
